@@ -185,7 +185,7 @@ def observed_entries(tree):
     return out
 
 
-def check_repository(repo, model, revmap, tag, rich_root=None):
+def check_repository(repo, model, revmap, tag, rich_root=None, fmt=None):
     """All C02 observations of `repo` against the model. revmap maps model
     revision ids to the ids in the repository (identity for bzr formats)."""
     pre = "C02/" + (tag + "-" if tag else "")
@@ -219,7 +219,12 @@ def check_repository(repo, model, revmap, tag, rich_root=None):
                 alt = model.alt.get((rid, fid))
                 if orev != lc:
                     if alt is not None and alt[0] == orev:
+                        # known for knit (its builder uses the revision graph
+                        # by construction); a pack-based format doing the
+                        # same is a different, new failure
                         sig = "last-changed-follows-revision-graph-heads"
+                        if fmt != "knit":
+                            sig = "pack-format-" + sig
                     elif lc == rid:
                         sig = "last-changed-carried-over-but-new-version-expected"
                     elif orev == rid:
@@ -254,6 +259,8 @@ def check_repository(repo, model, revmap, tag, rich_root=None):
                 alt = model.alt.get((r, f))
                 if alt is not None and gotp == tuple((f, h) for h in alt[1]):
                     sig = "text-parents-follow-revision-graph-heads"
+                    if fmt != "knit":
+                        sig = "pack-format-" + sig
                 elif sorted(gotp) == sorted(wantp):
                     sig = "text-parents-order"
                 elif set(wantp) < set(gotp):
@@ -477,7 +484,8 @@ class Script:
                         d = x
                 if d is None:
                     return None
-            new = (d[1] + "/" + op[3]) if d[1] else op[3]
+            name = op[3] if op[3] is not None else e[1].rsplit("/", 1)[-1]
+            new = (d[1] + "/" + name) if d[1] else name
             if new == e[1] or os.path.lexists(os.path.join(base, new)):
                 return None
             if wt.is_versioned(new):
